@@ -133,7 +133,7 @@ StepF(tgt) ==
         lclk == IF ClockScope = "process" THEN s1.gnow ELSE now1
         chainOk == "CH" \notin DOMAIN due \/ LeadOk(lclk)
         req == [alloc |-> IF chainOk THEN Resolved(due, lclk) ELSE <<>>, measure |-> "weight", thr |-> Thr,
-                fractional |-> TRUE]
+                fractional |-> TRUE, absolute |-> TRUE]
         r   == RebalanceF(s1.st, req, AccrualTime(now1))
         executed == r.out = "ok"
         brokeNow == r.out = "broke"
